@@ -75,4 +75,183 @@ theorem begin_bounded (cfg : Cfg) (cl : Client) (token : List Nat) (w : World) :
       | ret r => simp only [beginFold]; omega
       | cont s => cases s <;> (simp only [beginFold]; omega)
 
+/-! ### every public operation: composition of bounded exchanges -/
+
+theorem runOp_B {σ ρ : Type} (cfg : Cfg) (seqName : String) (cmd : Bytes) (step : σ → Item → Step σ ρ) (w : World) (s : σ) :
+    (runOp cfg seqName cmd TIMEOUT step w s).2.now ≤ w.now + 2440 := by
+  have := runOp_now cfg seqName cmd TIMEOUT step w s
+  have hb : ATTEMPTS * attemptBudget TIMEOUT = 2440 := by decide
+  omega
+
+theorem simpleOp_bounded (cfg : Cfg) (seqName : String) (cmd : Bytes) (w : World)
+    (onOk : EnumDef → Nat → Val → Step Unit (CRes Unit)) : (simpleOp cfg seqName cmd w onOk).2.now ≤ w.now + 2440 := by
+  unfold simpleOp
+  have hb := runOp_B cfg seqName cmd (liftStep (onOk (seqDesc seqName cmd).enum)) w ()
+  generalize runOp cfg seqName cmd TIMEOUT (liftStep (onOk (seqDesc seqName cmd).enum)) w () = q at hb ⊢
+  obtain ⟨st, w'⟩ := q
+  cases st <;> exact hb
+
+theorem getSystemInfo_bounded (cfg : Cfg) (w : World) : (getSystemInfo cfg w).2.now ≤ w.now + 2440 := by
+  unfold getSystemInfo
+  have hb := runOp_B cfg "feig::sequences::GetSystemInfo" sysInfoCmd (sysInfoStep (findEnumG "feig::sequences::GetSystemInfoResponse")) w ()
+  generalize runOp cfg "feig::sequences::GetSystemInfo" sysInfoCmd TIMEOUT (sysInfoStep (findEnumG "feig::sequences::GetSystemInfoResponse")) w () = q at hb ⊢
+  obtain ⟨st, w'⟩ := q
+  cases st <;> exact hb
+
+theorem setTerminalId_bounded (cfg : Cfg) (w : World) : (setTerminalId cfg w).2.now ≤ w.now + 4880 := by
+  unfold setTerminalId
+  have h1 := getSystemInfo_bounded cfg w
+  generalize getSystemInfo cfg w = q at h1 ⊢
+  obtain ⟨r, w1⟩ := q
+  cases r with
+  | error e => simp only; simp only at h1; omega
+  | ok info =>
+    simp only at h1 ⊢
+    split
+    · simp only; omega
+    · split
+      · simp only; omega
+      · have := simpleOp_bounded cfg "sequences::SetTerminalId"
+          (encodeReq "packets::SetTerminalId" (.struct [.num cfg.password, .some (.num (digitsVal cfg.terminalId))])) w1 setTidDecide
+        omega
+
+theorem initialize_bounded (cfg : Cfg) (w : World) : (initializeT cfg w).2.now ≤ w.now + 2440 := by
+  unfold initializeT; exact simpleOp_bounded _ _ _ _ _
+
+theorem cancelByReceipt_bounded (cfg : Cfg) (r : Nat) (w : World) : (cancelByReceipt cfg r w).2.now ≤ w.now + 2440 := by
+  unfold cancelByReceipt; exact simpleOp_bounded _ _ _ _ _
+
+/-- the pending query reports at most one receipt, within one exchange budget. -/
+theorem getPending_bounded (cfg : Cfg) (w : World) :
+    (getPending cfg w).2.now ≤ w.now + 2440 ∧ ∀ l, (getPending cfg w).1 = .ok l → l.length ≤ 1 := by
+  unfold getPending
+  have hb := runOp_B cfg "sequences::PartialReversal" pendingCmd (pendingStep (findEnumG "sequences::PartialReversalResponse")) w ()
+  have hres := runOp_ret_from_step cfg "sequences::PartialReversal" pendingCmd TIMEOUT
+    (pendingStep (findEnumG "sequences::PartialReversalResponse")) w ()
+    (fun r => ∀ l, r = .ok l → l.length ≤ 1)
+    (by
+      intro s it r h
+      cases it with
+      | err => simp [pendingStep] at h
+      | ok i v =>
+        simp only [pendingStep] at h
+        split at h
+        · split at h
+          · cases h; intro l hl; cases hl; simp
+          · split at h <;> (cases h; intro l hl; cases hl; simp)
+        · cases h; intro l hl; cases hl)
+  generalize runOp cfg "sequences::PartialReversal" pendingCmd TIMEOUT (pendingStep (findEnumG "sequences::PartialReversalResponse")) w () = q at hb hres ⊢
+  obtain ⟨st, w'⟩ := q
+  cases st with
+  | ret r => exact ⟨hb, hres r rfl⟩
+  | cont u => exact ⟨hb, by intro l hl; cases hl⟩
+
+theorem cancelAll_bounded (cfg : Cfg) : ∀ (rs : List Nat) (w : World), (cancelAll cfg rs w).2.now ≤ w.now + rs.length * 2440 := by
+  intro rs
+  induction rs with
+  | nil => intro w; simp [cancelAll]
+  | cons r rs ih =>
+    intro w
+    simp only [cancelAll]
+    have h1 := cancelByReceipt_bounded cfg r w
+    generalize cancelByReceipt cfg r w = q at h1 ⊢
+    obtain ⟨res, w1⟩ := q
+    cases res with
+    | error e => simp only [List.length_cons] at h1 ⊢; omega
+    | ok u =>
+      simp only [List.length_cons] at h1 ⊢
+      have := ih w1
+      omega
+
+/-- **end_of_day** (pending query, reversal of at most one receipt, end-of-day): three exchange budgets. -/
+theorem endOfDay_bounded (cfg : Cfg) (cl : Client) (w : World) : (endOfDay cfg cl w).2.2.now ≤ w.now + 7320 := by
+  unfold endOfDay
+  obtain ⟨h1, hlen⟩ := getPending_bounded cfg w
+  generalize getPending cfg w = q at h1 hlen ⊢
+  obtain ⟨res, w1⟩ := q
+  cases res with
+  | error e => simp only at h1 ⊢; omega
+  | ok pend =>
+    simp only at h1 ⊢
+    have hl := hlen pend rfl
+    have h2 := cancelAll_bounded cfg pend w1
+    generalize cancelAll cfg pend w1 = q2 at h2 ⊢
+    obtain ⟨res2, w2⟩ := q2
+    have hmul : pend.length * 2440 ≤ 2440 := by omega
+    cases res2 with
+    | error e => simp only at h2 ⊢; omega
+    | ok u =>
+      simp only at h2 ⊢
+      have h3 := simpleOp_bounded cfg "sequences::EndOfDay" (encodeReq "packets::EndOfDay" (.struct [.num cfg.password])) w2 eodDecide
+      generalize simpleOp cfg "sequences::EndOfDay" (encodeReq "packets::EndOfDay" (.struct [.num cfg.password])) w2 eodDecide = q3 at h3 ⊢
+      obtain ⟨r3, w3⟩ := q3
+      simp only at h3 ⊢
+      omega
+
+/-- **configure** (`Feig::new` runs it): system info, set terminal id, initialisation, end-of-day. -/
+theorem configure_bounded (cfg : Cfg) (cl : Client) (w : World) : (configure cfg cl w).2.2.now ≤ w.now + 14640 := by
+  unfold configure
+  have h1 := setTerminalId_bounded cfg w
+  generalize setTerminalId cfg w = q at h1 ⊢
+  obtain ⟨r1, w1⟩ := q
+  cases r1 with
+  | error e => simp only at h1 ⊢; omega
+  | ok u =>
+    simp only at h1 ⊢
+    have h2 := initialize_bounded cfg w1
+    generalize initializeT cfg w1 = q2 at h2 ⊢
+    obtain ⟨r2, w2⟩ := q2
+    cases r2 with
+    | error e => simp only at h2 ⊢; omega
+    | ok u2 =>
+      simp only at h2 ⊢
+      have := endOfDay_bounded cfg cl w2
+      omega
+
+theorem idleCleanup_bounded (cfg : Cfg) (cl : Client) (w : World) : (idleCleanup cfg cl w).2.2.now ≤ w.now + 7320 := by
+  unfold idleCleanup
+  split
+  · exact endOfDay_bounded cfg cl w
+  · simp
+
+/-- **cancel**: refused at once, or the reversal exchange plus the idle clean-up. -/
+theorem cancel_bounded (cfg : Cfg) (cl : Client) (token : List Nat) (w : World) :
+    (cancelTx cfg cl token w).2.2.now ≤ w.now + 9760 := by
+  unfold cancelTx
+  split
+  · simp
+  · rename_i a receipt _
+    have h1 := cancelByReceipt_bounded cfg receipt w
+    generalize cancelByReceipt cfg receipt w = q at h1 ⊢
+    obtain ⟨r, w1⟩ := q
+    cases r with
+    | error e => simp only [cancelFold] at h1 ⊢; omega
+    | ok u =>
+      simp only [cancelFold] at h1 ⊢
+      have := idleCleanup_bounded cfg { txs := cl.txs.filter (·.1 ≠ token) } w1
+      omega
+
+/-- **commit**: refused at once, or the partial-reversal exchange plus the idle clean-up. -/
+theorem commit_bounded (cfg : Cfg) (cl : Client) (token : List Nat) (final : Nat) (w : World) :
+    (commitTx cfg cl token final w).2.2.now ≤ w.now + 9760 := by
+  unfold commitTx
+  split
+  · simp
+  · rename_i a receipt _
+    have h1 := runOp_B cfg "sequences::PartialReversal" (commitCmd cfg token receipt final)
+      (commitStep (findEnumG "sequences::PartialReversalResponse")) w none
+    generalize runOp cfg "sequences::PartialReversal" (commitCmd cfg token receipt final) TIMEOUT
+      (commitStep (findEnumG "sequences::PartialReversalResponse")) w none = q at h1 ⊢
+    obtain ⟨st, w1⟩ := q
+    cases st with
+    | ret r => simp only [commitFold] at h1 ⊢; omega
+    | cont s =>
+      simp only [commitFold] at h1 ⊢
+      have h2 := idleCleanup_bounded cfg { txs := cl.txs.filter (·.1 ≠ token) } w1
+      generalize idleCleanup cfg { txs := cl.txs.filter (·.1 ≠ token) } w1 = q2 at h2 ⊢
+      obtain ⟨r2, cl2, w2⟩ := q2
+      cases r2 with
+      | error e => simp only at h2 ⊢; omega
+      | ok u => cases s <;> (simp only at h2 ⊢; omega)
+
 end Zvt.C10
